@@ -1137,11 +1137,19 @@ def _new_session():
 
 def _io_task(a):
     """One (round, shard): generate grammar cases, run the harness, judge its two logs."""
-    exe, tier, seed, rnd, shard, nshards, workdir, ntexts = a
+    exe, tier, seed, rnd, shard, nshards, workdir, ntexts = a[:8]
+    hist_only = len(a) > 8 and a[8]     # sensitivity runs: only the prior-history log (no random dumps)
     from vf import driver
     res = driver.empty_result()
 
+    prior = [None]    # (name, family) while records of the prior-history log are judged
+
     def violation(key, what, case):
+        if prior[0] is not None:
+            # a call made on a fresh thread right after one earlier, unrelated use of phosg's shared helpers
+            head, _, rest = key.partition(":")
+            key = "%s:prior-history:%s%s" % (head, prior[0][1], ":" + rest if rest else "")
+            case = "on a fresh thread after prior [%s]: %s" % (prior[0][0], case)
         res["violation_counts"][key] = res["violation_counts"].get(key, 0) + 1
         if res["violation_counts"][key] <= 3:
             res["violations"].append({"key": key, "what": what, "case": case,
@@ -1149,7 +1157,7 @@ def _io_task(a):
 
     tag = "c09-io-r%d" % rnd
     base = os.path.join(workdir, "%s.%d" % (tag, shard))
-    cases_path, res_path, log_path = base + ".cases", base + ".res", base + ".dumps"
+    cases_path, res_path, log_path, hist_path = base + ".cases", base + ".res", base + ".dumps", base + ".hist"
     rng = random.Random("c09-grammar-%d-%d-%d" % (seed, rnd, shard))
     builders = []
     with open(cases_path, "wb") as f:
@@ -1166,7 +1174,8 @@ def _io_task(a):
             f.write(struct.pack("<I", len(case[0])) + case[0])
         builders = texts
     r = driver.run_shard(exe, tier, seed, shard, nshards, workdir, tag,
-                         args=["only=io", "cases=" + cases_path, "res=" + res_path, "log=" + log_path, "round=%d" % rnd],
+                         args=["only=io", "cases=" + cases_path, "res=" + res_path, "round=%d" % rnd] +
+                              (["log=" + log_path] if not hist_only else []) + (["histlog=" + hist_path] if rnd == 0 else []),
                          timeout=1500 if tier == "quick" else 7200)
     fatal, ub = driver.parse_sanitizer_log(r["stderr"])
     res["ub_observations"] = ub
@@ -1196,23 +1205,18 @@ def _io_task(a):
         buf = b""
     p = 0
     judged = 0
-    for case in builders:
+
+    def judge_text(case, status, got_data, got_mask, count_classes=True):
         text, b = case[0], case[1]
-        if p >= len(buf):
-            break
-        status = buf[p]
-        p += 1
-        got_data, p = _rdstr(buf, p)
-        got_mask, p = _rdstr(buf, p)
         if len(case) == 3:
             # a spelling whose meaning no document fixes: only "did not throw" is demanded; what came out is counted
-            judged += 1
             if status != 0:
                 violation("parse:grammar:throws", "parse_data_string threw: %r" % got_data[:200], "parse_data_string(%r)" % text)
-                continue
-            k = "observe:%s:%s" % (b, "unclassified" if case[2] is None else "c-library-reading" if case[2](got_data) else "other-reading")
-            classes[k] = classes.get(k, 0) + 1
-            continue
+                return
+            if count_classes:
+                k = "observe:%s:%s" % (b, "unclassified" if case[2] is None else "c-library-reading" if case[2](got_data) else "other-reading")
+                classes[k] = classes.get(k, 0) + 1
+            return
         exp_data, exp_mask = ref_parse(text)
         spans = []
         if b is not None:
@@ -1220,17 +1224,27 @@ def _io_task(a):
                 raise OracleError("generator and reference parser disagree on %r: %s/%s vs %s/%s" % (
                     text, exp_data.hex(), exp_mask.hex(), bytes(b.data).hex(), bytes(b.mask).hex()))
             spans = b.spans
-            for it in b.items:
-                classes["grammar:" + it] = classes.get("grammar:" + it, 0) + 1
-        else:
+            if count_classes:
+                for it in b.items:
+                    classes["grammar:" + it] = classes.get("grammar:" + it, 0) + 1
+        elif count_classes:
             classes["grammar:fixed-text"] = classes.get("grammar:fixed-text", 0) + 1
-        judged += 1
         v = judge_grammar_case(text, exp_data, exp_mask, spans, status, got_data, got_mask, b.alts if b is not None else ())
         if v:
             violation(v[0], v[1], "parse_data_string(%r) = data %s mask %s; syntax defines data %s mask %s" % (
                 text, got_data.hex(), got_mask.hex(), exp_data.hex(), exp_mask.hex()))
         elif judged % 5000 == 3 and len(res["samples"]) < 2:
             res["samples"].append("grammar text %r -> %s" % (text[:120], exp_data.hex()[:80]))
+
+    for case in builders:
+        if p >= len(buf):
+            break
+        status = buf[p]
+        p += 1
+        got_data, p = _rdstr(buf, p)
+        got_mask, p = _rdstr(buf, p)
+        judged += 1
+        judge_text(case, status, got_data, got_mask)
     res["counters"]["grammar_texts_judged"] = judged
     res["evaluations"] += judged
     # ---- dump log
@@ -1239,12 +1253,10 @@ def _io_task(a):
             buf = f.read()
     except OSError:
         buf = b""
-    p = 0
     nd = 0
-    L = len(buf)
-    while p < L:
-        if buf[p] != 0x44:
-            raise OracleError("dump log out of sync at %d" % p)
+
+    def judge_dump_record(buf, p):
+        nonlocal nd
         addr, flags = struct.unpack_from("<QQ", buf, p + 1)
         p += 17
         label, p = _rdstr(buf, p)
@@ -1282,9 +1294,59 @@ def _io_task(a):
                               lab, out[:1500]))
         elif nd % 20000 == 5 and len(res["samples"]) < 4:
             res["samples"].append("dump addr=0x%X flags=%s len=%d -> %r" % (addr, _flagstr(flags), len(data), out[:160]))
+        return p
+
+    p = 0
+    L = len(buf)
+    while p < L:
+        if buf[p] != 0x44:
+            raise OracleError("dump log out of sync at %d" % p)
+        p = judge_dump_record(buf, p)
     res["counters"]["dumps_decoded"] = nd
     res["evaluations"] += nd
-    for pth in (cases_path, res_path, log_path):
+    # ---- prior-history log: 'P' name family | 'G' index status data mask | 'D' dump record; judged exactly like the
+    # records above (reference parser / dump decoder), keys carry the family of the prior that ran first on the thread
+    try:
+        with open(hist_path, "rb") as f:
+            buf = f.read()
+    except OSError:
+        buf = b""
+    p = 0
+    L = len(buf)
+    nd0 = nd
+    nprior = ntext = 0
+    try:
+        while p < L:
+            t = buf[p]
+            if t == 0x50:
+                name, p = _rdstr(buf, p + 1)
+                fam, p = _rdstr(buf, p)
+                prior[0] = (name.decode(), fam.decode())
+                nprior += 1
+                k = "prior:%s:judged-by-python" % prior[0][1]
+                classes[k] = classes.get(k, 0) + 1
+            elif t == 0x47 and prior[0] is not None:
+                ti, p = _rd32(buf, p + 1)
+                status = buf[p]
+                got_data, p = _rdstr(buf, p + 1)
+                got_mask, p = _rdstr(buf, p)
+                if ti >= len(builders):
+                    raise OracleError("prior-history log names text %d of %d" % (ti, len(builders)))
+                ntext += 1
+                judge_text(builders[ti], status, got_data, got_mask, count_classes=False)
+            elif t == 0x44 and prior[0] is not None:
+                p = judge_dump_record(buf, p)
+            else:
+                raise OracleError("prior-history log out of sync at %d" % p)
+    except (struct.error, IndexError):
+        if r["rc"] == 0 and not r["timed_out"]:
+            raise OracleError("prior-history log truncated although the harness finished")
+    prior[0] = None
+    res["counters"]["prior_history_priors_judged"] = nprior
+    res["counters"]["prior_history_dumps_decoded"] = nd - nd0
+    res["counters"]["prior_history_grammar_texts_judged"] = ntext
+    res["evaluations"] += (nd - nd0) + ntext
+    for pth in (cases_path, res_path, log_path, hist_path):
         try:
             os.unlink(pth)
         except OSError:
